@@ -519,7 +519,8 @@ func (cx *Ctx) checkIssuerComposition(r *Report) {
 		if len(sites) == 0 {
 			r.Fail("R-VFG", "issuer-headers:configured", w.FnPos(wo), "WithIssuerFromCustomHeaders no longer stores the header names into the issuer configuration: the configured headers are ignored")
 		} else {
-			r.checkSources("R-VFG", "issuer-headers:configured", w.InstrPos(sites[0]), ls, []string{"param:provider.WithIssuerFromCustomHeaders/#0", "alloc:*"}, []string{"param:provider.WithIssuerFromCustomHeaders/#0"}, false)
+			// (the names may be copied into a new slice first: look at what the stored container holds)
+			r.checkSources("R-VFG", "issuer-headers:configured", w.InstrPos(sites[0]), ovf.Deep(ls), []string{"param:provider.WithIssuerFromCustomHeaders/#0*", "alloc:*", "const:*"}, []string{"param:provider.WithIssuerFromCustomHeaders/#0*"}, false)
 		}
 	}
 }
